@@ -137,6 +137,9 @@ def main(argv):
     results, problems = run_shards(prop, specs, shard_timeout)
     merged = common.merge(results)
     fin = mod.finish(merged, tier, seed)  # -> {"coverage": {...}, "inconclusive": [reasons], "assumptions": [...]}
+    for v in fin.get("violations", []):  # aggregate (whole-run) oracles decided in finish()
+        merged["violations"].append(v)
+        merged["n_violations"] += 1
     wall = time.monotonic() - t0
 
     known = load_known_findings()
